@@ -170,6 +170,15 @@ CLAIMED = {
             "equality judgement; the verdict is byte comparison across processes.",
             "Trusted: independent processes really differ in hash seeds/ASLR; sha256.",
             "5 C15"),
+    "C12": ("exploration",
+            "WorldGrammar.tla worlds (TLC GEN) + adversarial-name worlds + corpus -> real C generator -> clang --target=wasm32 (-Werror) -> "
+            "wasm-ld with the component-type object -> wit_component::ComponentEncoder with validation; decoded world and declared string "
+            "encoding compared with the request",
+            "Every (constructor, position, role) cell (quick: every second) x {default, no-sig-flattening, autodrop, async, utf16} plus C "
+            "keyword / temporary-name / case-folding collision worlds and tests/codegen; the verdict is the real tool chain's.",
+            "Trusted: clang 14, wasm-ld 14, wit-component 0.257; a freestanding libc shim replaces wasi-sdk. Where even the reference "
+            "surface is not encodable (--async=all over sync-declared functions, flags>32, stream<char>) the check stops after linking.",
+            "5 C12"),
     "C13": ("model_checking",
             "TLA+ CoreSurface.tla (on CallConv/CanonABI) evaluated by TLC over WorldGrammar.tla worlds = expected core imports/exports "
             "with signatures (spec->impl); generators' declared surface read from the real wasm32 module (C: clang+wasm-ld) or by "
@@ -180,6 +189,15 @@ CLAIMED = {
             "Trusted: wit-parser/wit-component 0.257 as the reference for names; clang 14/wasm-ld for C; the scanners' type-spelling "
             "tables. Not covered: whether text-scanned imports are really referenced at link time (approximated by identifier use).",
             "5 C13"),
+    "C17": ("model_checking",
+            "TLA+ AsyncFilter.tla model-checked (stateful AsyncFilterSet: first match wins, used-set, ensure_all_used); TLC-generated "
+            "(directive list, world) vectors replayed into the real AsyncFilterSet, recorded query traces validated by TLC, and the "
+            "same vectors driven through the real Rust/C/Go/MoonBit generators whose [async-lower]/[async-lift] surface must equal the spec's selection",
+            "All directive lists of length <= 2 (thorough 3) over {all, name, import:name, export:name} x {+,-} x 6 names against 6 "
+            "worlds (8.9k vectors) for the core; a stratified sample of them (rejected lists, two decisive directives, shadowing) "
+            "through four generators, with Rust's accept/reject verdict compared to MustReject/MustAccept.",
+            "Trusted: the declaration scanners / clang route of C13 to read which ABI a function is bound with.",
+            "5 C17"),
     "C31": ("exploration",
             "WorldGrammar.tla worlds + adversarial-name worlds + corpus -> real C++ generator -> g++ -std=c++20 -fsyntax-only "
             "against the repository's helper headers",
